@@ -229,7 +229,9 @@ func semMachine(deep bool) *machine[sem.Ver] {
 	} else {
 		bad = append(bad, mutants(valid[1:2], ".-+")...)
 	}
-	m := &machine[sem.Ver]{typ: "sem.Ver", show: func(v sem.Ver) string { return fmt.Sprintf("%d.%d.%d pre=%q build=%q", v.Major, v.Minor, v.Patch, v.PreRelease, v.Build) }}
+	m := &machine[sem.Ver]{typ: "sem.Ver", show: func(v sem.Ver) string {
+		return fmt.Sprintf("%d.%d.%d pre=%q build=%q", v.Major, v.Minor, v.Patch, v.PreRelease, v.Build)
+	}}
 	m.ops = append(m.ops, textOps("UnmarshalText", (*sem.Ver).UnmarshalText, append(valid, bad...))...)
 	m.ops = append(m.ops, jsonWrap[sem.Ver]([]string{`"1.2.3-rc.1+b.5"`, `"v3.0.0"`, `"1.2"`, `12`, `""`})...)
 	m.ops = append(m.ops, xmlWrap[sem.Ver]([]string{"4.5.6-x", "4.5", ""})...)
